@@ -132,3 +132,52 @@ def raise_custom(a: int) -> int:
     class E(Exception):
         pass
     raise E
+
+
+class Obj:
+    def virt(self, x: int, y: int) -> int:
+        raise NotImplementedError
+
+
+def lambda_shadow(a: int):
+    v = a + 1
+    return lambda v: v + a
+
+
+def lambda_names_differ(a: int):
+    return lambda w: w + a
+
+
+def lambda_factory(a: int):
+    return lambda v: v + a
+
+
+def calls_lambda_factory(a: int) -> int:
+    f = lambda_factory(a)
+    return f(1)
+
+
+def unknown_method(o: Obj, a: int) -> int:
+    return o.other(a)
+
+
+def method_missing_argument(o: Obj, a: int) -> int:
+    return o.virt(a)
+
+
+def method_unknown_keyword(o: Obj, a: int) -> int:
+    return o.virt(a, z=a)
+
+
+def chained_raising_middle(a: int, b: int) -> bool:
+    return a < _raiser(b) < _raiser(a + b)
+
+
+def opaque_order(x: int, y: int) -> bool:
+    return x < y
+
+
+def none_where_int(a: int) -> int:
+    if a > 0:
+        return None
+    return a
